@@ -12,6 +12,7 @@ import (
 	"net/http"
 	"strings"
 	"sync"
+	"sync/atomic"
 	"time"
 
 	"github.com/gorilla/websocket"
@@ -124,6 +125,10 @@ func c12Main(specBytes []byte) {
 				x.stress()
 			case "idle":
 				x.idle()
+			case "batch":
+				x.batch()
+			case "noread":
+				x.noread()
 			}
 			x.res.Ms = time.Since(t0).Milliseconds()
 			Emit(x.res)
@@ -204,8 +209,13 @@ func (x *c12Exec) judge(action, label, reject string, a shimAnswer) {
 }
 
 func (x *c12Exec) call(action, label, reject string, hdr [][2]string, body []byte) shimAnswer {
+	return x.callNamed(action, action, label, reject, hdr, body)
+}
+
+// callNamed posts to endpoint but is judged (signatures, bounds) under name.
+func (x *c12Exec) callNamed(endpoint, action, label, reject string, hdr [][2]string, body []byte) shimAnswer {
 	if c12Missed("no-answer:" + action) {
-		a := shimStart(x.h, nil, "", shimReq(action, hdr, body)).wait(2 * time.Second)
+		a := shimStart(x.h, nil, "", shimReq(endpoint, hdr, body)).wait(2 * time.Second)
 		if !a.Answered && a.Panic == "" {
 			x.mu.Lock()
 			x.res.Unjudged++
@@ -215,7 +225,7 @@ func (x *c12Exec) call(action, label, reject string, hdr [][2]string, body []byt
 		x.judge(action, label, reject, a)
 		return a
 	}
-	a := shimStart(x.h, nil, "", shimReq(action, hdr, body)).wait(c12Bound(action))
+	a := shimStart(x.h, nil, "", shimReq(endpoint, hdr, body)).wait(c12Bound(action))
 	if !a.Answered && a.Panic == "" {
 		c12NoteMiss("no-answer:" + action)
 	}
@@ -912,6 +922,9 @@ func (x *c12Exec) stress() {
 				var body []byte
 				own := true
 				switch {
+				case p < 8: // mixed batch: the session under stress first, then an id that never existed
+					mb, _ := json.Marshal([]map[string]interface{}{{"id": s.id, "msg": fmt.Sprintf("g%d-%d", i, j)}, {"id": c12Unknown[p%len(c12Unknown)], "msg": "stray"}})
+					action, target, body, own = "data", "unknown", mb, false
 				case p < 40:
 					action, target, body = "data", s.id, c12DataBody(s.id, fmt.Sprintf("g%d-%d", i, j))
 				case p < 70:
@@ -1036,4 +1049,193 @@ func (x *c12Exec) idle() {
 		x.checkBackendClosed(s, "idle")
 		x.rejects(s, "close answered 200")
 	}
+}
+
+// ------------------------------------------------------------ mixed-ID data batches
+
+// batch posts one data request whose entries name, in the given order:
+// A, B = two open sessions; C = a session closed by the client; D = a
+// session whose backend closed and whose poll already answered 400;
+// U = an id that never existed. Oracles: a batch naming an unknown or closed
+// session is answered 400 (what became of the entries before the bad one is
+// not prescribed); no message ever arrives on a backend connection other than
+// the one its entry names; a batch naming only open sessions that is
+// answered 200 is delivered, per session, in entry order.
+func (x *c12Exec) batch() {
+	sess := map[string]*c12Sess{}
+	need := map[string]bool{"A": true}
+	for _, k := range x.c.Ops {
+		need[k] = true
+	}
+	for _, k := range []string{"A", "B", "C", "D"} {
+		if !need[k] {
+			continue
+		}
+		s, _ := x.open()
+		if s == nil {
+			x.res.Skipped++
+			return
+		}
+		sess[k] = s
+		switch k {
+		case "C":
+			a := x.call("close", "close(session C of the batch case)", "", nil, shimIDBody(s.id))
+			if !a.Answered || a.Status != 200 {
+				x.res.Skipped++
+				return
+			}
+			s.state = c12Closed
+			x.checkBackendClosed(s, "batch set-up")
+		case "D":
+			s.bc.closeNow()
+			s.state = c12BClosed
+			x.drain(s, nil)
+			if s.state != c12Closed {
+				x.res.Skipped++
+				return
+			}
+		}
+	}
+	type entry struct {
+		kind, id, payload string
+	}
+	var entries []entry
+	var body []map[string]interface{}
+	reject, badAt := "", -1
+	for i, k := range x.c.Ops {
+		e := entry{kind: k, payload: fmt.Sprintf("batch %s entry %d for %s", x.c.ID, i, k)}
+		switch k {
+		case "U":
+			e.id = c12Unknown[(i+x.c.Rep)%len(c12Unknown)]
+			if reject == "" {
+				reject, badAt = "unknown", i
+			}
+		case "C", "D":
+			e.id = sess[k].id
+			if reject == "" {
+				reject, badAt = "closed", i
+			}
+		default:
+			e.id = sess[k].id
+		}
+		entries = append(entries, e)
+		body = append(body, map[string]interface{}{"id": e.id, "msg": e.payload})
+	}
+	if body == nil {
+		body = []map[string]interface{}{}
+	}
+	bj, _ := json.Marshal(body)
+	label := fmt.Sprintf("data batch naming [%s]", strings.Join(x.c.Ops, ","))
+	if badAt >= 0 {
+		label += fmt.Sprintf(" (entry %d names %s session %q)", badAt, map[string]string{"unknown": "an unknown", "closed": "a closed"}[reject], entries[badAt].id)
+	}
+	a := x.callNamed("data", "data-batch", label, reject, nil, bj)
+	x.step(c12Step{Op: "batch", Target: strings.Join(x.c.Ops, ","), Status: a.Status, Ms: a.ms()})
+	x.res.Statuses = fmt.Sprintf("batch=%d", a.Status)
+	if !a.Answered {
+		x.probe(label)
+		return
+	}
+	// flush marker per open session, then look at what each backend got
+	const marker = "batch end marker"
+	for _, k := range []string{"A", "B"} {
+		s := sess[k]
+		if s == nil {
+			continue
+		}
+		m := x.call("data", fmt.Sprintf("data(session %s, end marker)", s.id), "", nil, c12DataBody(s.id, marker))
+		flushed := false
+		if m.Answered && m.Status == 200 {
+			flushed = s.bc.waitRecv(func(r []shimMsg) bool { return len(r) > 0 && string(r[len(r)-1].D) == marker }, 10*time.Second*time.Duration(c12Scale))
+		}
+		var want []string
+		for _, e := range entries {
+			if e.kind == k {
+				want = append(want, e.payload)
+			}
+		}
+		var got []string
+		for _, r := range s.bc.received() {
+			if string(r.D) == marker {
+				continue
+			}
+			got = append(got, string(r.D))
+			mine := false
+			for _, w := range want {
+				if w == string(r.D) {
+					mine = true
+				}
+			}
+			if !mine {
+				x.violate("C12:data-batch:misrouted", fmt.Sprintf("%s answered %d: the backend connection of session %s (%s) received %q, which no entry addressed to it", label, a.Status, s.id, k, shimTrunc(string(r.D), 80)))
+			}
+		}
+		if badAt < 0 && a.Status == 200 && flushed && strings.Join(got, "|") != strings.Join(want, "|") {
+			x.violate("C12:data-batch:undelivered", fmt.Sprintf("%s answered 200 but the backend of session %s (%s) received %q instead of %q", label, s.id, k, got, want))
+		}
+	}
+	for _, k := range []string{"A", "B"} {
+		if s := sess[k]; s != nil {
+			c := x.call("close", fmt.Sprintf("close(session %s, wind-down)", s.id), "", nil, shimIDBody(s.id))
+			if c.Answered && c.Status == 200 {
+				x.checkBackendClosed(s, "batch wind-down")
+			}
+		}
+	}
+	for _, s := range sess {
+		x.b.forget(s.token)
+	}
+	x.probe(label)
+}
+
+// ------------------------------------------------------------ push-only backend
+
+// noread runs a short script against a session whose backend never reads
+// from the websocket and pushes a message every Rep milliseconds: "d" data,
+// "p" poll (something is always about to be pending), "w" wait until the
+// backend has pushed more than the shim can queue, "c" close. After the
+// close answered 200 the agent has to tear the backend connection down by
+// itself - nobody is going to answer its close frame.
+func (x *c12Exec) noread() {
+	period := x.c.Rep
+	if period <= 0 {
+		period = 5
+	}
+	s, _ := x.open([2]string{"X-Verif-Noread", fmt.Sprint(period)})
+	if s == nil {
+		x.res.Skipped++
+		return
+	}
+	for i, op := range x.c.Ops {
+		switch op {
+		case "d":
+			a := x.call("data", fmt.Sprintf("data(session %s, push-only backend)", s.id), "", nil, c12DataBody(s.id, fmt.Sprintf("unread message %d", i)))
+			x.step(c12Step{Op: op, Target: s.id, Status: a.Status, Ms: a.ms()})
+		case "p":
+			a := x.call("poll", fmt.Sprintf("poll(session %s, push-only backend)", s.id), "", nil, shimIDBody(s.id))
+			x.step(c12Step{Op: op, Target: s.id, Status: a.Status, Ms: a.ms()})
+		case "w":
+			from := atomic.LoadInt64(&s.bc.pushed)
+			for t0 := time.Now(); atomic.LoadInt64(&s.bc.pushed) < from+14 && time.Since(t0) < 5*time.Second; {
+				time.Sleep(time.Millisecond)
+			}
+			x.step(c12Step{Op: op, Target: s.id, Note: fmt.Sprintf("%d pushed", atomic.LoadInt64(&s.bc.pushed))})
+		case "c":
+			a := x.call("close", fmt.Sprintf("close(session %s, push-only backend that never reads)", s.id), "", nil, shimIDBody(s.id))
+			x.step(c12Step{Op: op, Target: s.id, Status: a.Status, Ms: a.ms()})
+			if a.Answered && a.Status == 200 {
+				s.state = c12Closed
+				x.checkBackendClosed(s, fmt.Sprintf("push-only backend, script %s", strings.Join(x.c.Ops, ",")))
+				x.rejects(s, "close answered 200")
+			}
+		}
+	}
+	if s.state != c12Closed {
+		c := x.call("close", fmt.Sprintf("close(session %s, wind-down, push-only backend)", s.id), "", nil, shimIDBody(s.id))
+		if c.Answered && c.Status == 200 {
+			x.checkBackendClosed(s, "push-only backend wind-down")
+		}
+	}
+	x.b.forget(s.token)
+	x.probe("push-only backend script " + strings.Join(x.c.Ops, ","))
 }
